@@ -203,7 +203,22 @@ func famShared(tw *traceWriter, r *rand.Rand, n int) {
 	}
 }
 
+// C12: Preprocess functions (Parse): mismatch and error become issues and skip the wrapped schema
+func famPreprocess(tw *traceWriter, r *rand.Rand, n int) {
+	for i := 0; i < n; i++ {
+		g := genCfg{maxDepth: 2, pre: true, noPath: true}
+		sch := genStruct(r, g, 0)
+		c := &Case{ID: fmt.Sprintf("pp%d", i), Mode: "parse", Fe: "map", Schema: sch}
+		c.Input = genParseInput(r, sch, "map")
+		if c.Input.T != "map" {
+			c.Input = mapIn()
+		}
+		tw.emitCase(c, "", true)
+	}
+}
+
 func init() {
+	families["preprocess"] = famPreprocess
 	families["shared"] = famShared
 	families["pairspt"] = famPairsPT
 	families["tags"] = famTags
